@@ -168,8 +168,12 @@ func runC12(c c12Case) error {
 	}
 	// the same histogram inside Metrics / the JSON report ("buckets")
 	m := vegeta.Metrics{Histogram: &vegeta.Histogram{Buckets: bk}}
-	for _, l := range c.Lat {
-		m.Add(&vegeta.Result{Latency: time.Duration(l), Code: 200, Timestamp: time.Unix(5, 0)})
+	for i, l := range c.Lat {
+		r := &vegeta.Result{Latency: time.Duration(l), Code: 200, Timestamp: time.Unix(5, 0)}
+		if i%3 != 0 { // failed requests with recurring error texts are results like any other
+			r.Code, r.Error = 503, []string{"503 Service Unavailable", "EOF"}[i%2]
+		}
+		m.Add(r)
 	}
 	m.Close()
 	var buf bytes.Buffer
